@@ -796,6 +796,36 @@ fn gen_c16(tier: &str, rng: &mut Rng) -> Vec<Case> {
         let id = cases.len();
         cases.push(mk_case(id, 0, cfg, rng.range(30, 80), html.into_bytes(), Some(0), Meta::G { role: "inline_affixes", strs: vec![expect], nums: vec![] }, "inline_affixes"));
     }
+    // definition lists: a term is the emphasised text on a line of its own, a definition is indented
+    let n4 = if tier == "thorough" { 10000 } else { 800 };
+    for _ in 0..n4 {
+        let custom = rand_custom(rng);
+        let cfg = Cfg { deco: 4, custom: custom.clone(), ..Default::default() };
+        let mut html = String::new();
+        let mut expect: Vec<String> = Vec::new();
+        match rng.below(3) {
+            0 => html.push_str("<p>before</p>"),
+            1 => html.push_str("before"),
+            _ => {}
+        }
+        html.push_str("<dl>");
+        for k in 0..rng.range(1, 3) {
+            let term = format!("t{}m", k);
+            let inner = match rng.below(3) {
+                0 => (format!("<strong>{}</strong>", term), format!("{}{}{}", custom[4], term, custom[5])),
+                _ => (term.clone(), term.clone()),
+            };
+            html.push_str(&format!("<dt>{}</dt>", inner.0));
+            expect.push(format!("{}{}{}", custom[2], inner.1, custom[3]));
+            if rng.chance(2, 3) {
+                html.push_str(&format!("<dd>d{}f</dd>", k));
+                expect.push(format!("  d{}f", k));
+            }
+        }
+        html.push_str("</dl>");
+        let id = cases.len();
+        cases.push(mk_case(id, 0, cfg, rng.range(30, 80), html.into_bytes(), Some(0), Meta::G { role: "dl_lines", strs: expect, nums: vec![] }, "dl_lines"));
+    }
     // ordered lists whose markers differ in length (9 -> 10, 99 -> 100, ...): every item is padded
     // to the display width of the widest marker and its content wrapped to what is left
     let n2 = if tier == "thorough" { 20000 } else { 1000 };
@@ -855,6 +885,19 @@ fn check_c16(cases: &[Case], results: &[Option<RunResult>]) -> Vec<Violation> {
                 let want: String = c.meta.strs()[0].chars().filter(|ch| !ch.is_whitespace()).collect();
                 if got != want {
                     v.push(viol(i, "decorator affixes do not surround exactly the element text", format!("wanted {:?} got {:?}", want, got), None));
+                }
+            }
+            if c.meta.role() == "dl_lines" {
+                // every expected line occurs, in order, as a whole line
+                let mut k = 0usize;
+                for want in c.meta.strs() {
+                    match lines[k..].iter().position(|l| l.trim_end() == want.trim_end()) {
+                        Some(p) => k += p + 1,
+                        None => {
+                            v.push(viol(i, "definition list: term / definition line is not affix + text + affix on one line", format!("wanted line {:?} in {:?}", want, lines), None));
+                            break;
+                        }
+                    }
                 }
             }
             if c.meta.role() == "doc" {
